@@ -45,6 +45,8 @@ def py_expr(n, ctx_matters=True):
         return ('Compare', py_expr(n.left), tuple(CMPOPS[type(o)] for o in n.ops), tuple(py_expr(c) for c in n.comparators))
     if isinstance(n, ast.IfExp):
         return ('IfExp', py_expr(n.test), py_expr(n.body), py_expr(n.orelse))
+    if isinstance(n, ast.NamedExpr):
+        return ('NamedExpr', py_expr(n.target), py_expr(n.value))
     if isinstance(n, ast.Call):
         args = []
         for a in n.args:
